@@ -35,7 +35,7 @@ def cases(draw, tier):
         msl = draw(st.integers(1, 3))
         n = draw(st.integers(2 * msl, 11))
         m = (n + 1) ** 3
-        flat = draw(st.lists(st.integers(0, 4), min_size=m, max_size=m))
+        flat = draw(st.lists(st.integers(-1, 4), min_size=m, max_size=m))
         t = np.asarray(flat).reshape(n + 1, n + 1, n + 1).tolist()
         sc = {"cls": "TableChangeScore", "table": t}
         X = [[0.0] * p for _ in range(n)]
@@ -45,7 +45,8 @@ def cases(draw, tier):
         nmax = 40 if tier == "quick" else 60
         n = D.weighted(draw, [(2, st.just(2 * msl)), (2, st.integers(2 * msl, 2 * msl + 3)), (7, st.integers(2 * msl, max(2 * msl, nmax)))])
         if sc == "function":
-            sc = {"cls": "FunctionChangeScore", "key": draw(st.integers(0, 1000)), "modulus": draw(st.sampled_from([2, 3, 5, 7]))}
+            sc = {"cls": "FunctionChangeScore", "key": draw(st.integers(0, 1000)), "modulus": draw(st.sampled_from([2, 3, 5, 7])),
+                  "offset": draw(st.sampled_from([0, 0, 1, 2]))}
             X = [[0.0] * p for _ in range(n)]
         else:
             X, _ = draw(D.structured_matrix(n, p, boundary_positions=(msl, n - msl)))
